@@ -10,6 +10,22 @@ forms of the property (`spec`); the theorems of Props/C02 say these agree.
 Source modes: `finite` (need(K)+slack items), `trip` (exactly need(K) items, then a trip-wire
 that raises when touched), `endless`.  need(K) comes from the Lean spec (driver query made by
 the generator), never from Python.
+
+Auxiliary sources.  Every registry entry DECLARES its stream-valued arguments (`aux=`): name and
+read rule.  The harness wraps each of them in its own counting source — again finite / trip-wire
+/ endless, sized from the Lean spec (`aux_need`) — and compares its pull counter at construction
+(0), after iter() (0) and after every next() with the Lean model (generator protocol on the
+auxiliary-source view of the stage) and the Lean spec (closed form):
+  lockstep  = pulls of the stage's main input   (operands, zip partners, coefficient / cut-off /
+              frequency / phase / modulo / step streams: the stage is a stage over the pair source)
+  lag1      = outputs of the stage - 1          (`resample` old/new streams: the step is read after
+              the yield; two-source model `rsStepS`, theorems need_resample_step, resample_two_source)
+  event     = outputs - ceil(delta - 1/2)       (data of every Streamix event)
+  never     = 0 while the main source lasts     (streams appended after it: append / chain / Stream(a, b))
+`ctl` cases replay a ControlStream history (value set before every next()) against the same stage
+fed with plain streams holding, read by read, the values that read discipline makes visible: the
+outputs must be identical, i.e. a change made between two next() reaches exactly the reads made
+afterwards.
 """
 import itertools as it
 import json
@@ -21,8 +37,11 @@ from common import err_kind
 
 ID = "C02"
 RULE = ("every registry stage x >=3 parameter sets x 3 source modes (finite+slack, exact+trip-wire, endless), "
-        "K=12 consecutive next() per case (so k=0..12 each), plus random chains of compatible stages "
-        "(depth<=3 quick, <=5 thorough) with counting taps at every boundary, plus take/peek consumers; "
+        "K=12 consecutive next() per case (so k=0..12 each), plus every stage with stream-valued arguments x "
+        "3 kinds of auxiliary source (finite+slack, exact+trip-wire, endless) with a counter on each declared "
+        "argument, plus random chains of compatible stages "
+        "(depth<=3 quick, <=5 thorough; every fifth with an auxiliary-source stage at a random position) with "
+        "counting taps at every boundary, plus ControlStream histories, plus take/peek consumers; "
         "a case is non-trivial when at least one output was demanded and delivered; distinct = distinct JSON case")
 TRUSTED = [
     "hand-written Lean models ALV/Model/C02.lean of the READ DISCIPLINE of each stage (prologue / one read per loop "
@@ -36,14 +55,23 @@ TRUSTED = [
     "Stream.peek(n)/take(n) are consumers (they read n items when called, never n+1)",
     "filter `memory=` iterables are parameters, not sources: they are read when the filter is called (lm+1 items "
     "through takewhile); not covered by the property",
+    "read rules of auxiliary (stream-valued) arguments as declared in the registry: lock-step with the main input "
+    "(documented: `modulo_counter`/`sinusoid`/`TableLookup` zip their arguments, the generated filter loop does one "
+    "next(coefficient) per input sample), `resample` step = outputs-1 (code: `idx += next(step)` after the yield), "
+    "Streamix event = outputs - ceil(T - 1/2) for the absolute event time T; modulo_counter/sinusoid read the step "
+    "value together with the start value (BEFORE the yield) - that is the library's documented zip discipline, so a "
+    "ControlStream frequency change reaches the output after the next one",
+    "ControlStream histories compare the real code with itself (ControlStream arguments vs. plain streams scheduled "
+    "from the Lean spec's read counters); outputs are compared by repr",
 ]
 ASSUMPTIONS = [
     "count/trip/endless modes: sources are long enough for the K demanded outputs; the `drain` mode (finite source consumed "
     "to its end, pull counter at every output incl. the epilogue) is run only for stages whose end-of-source behaviour is "
     "not a defect owned by C03/C09/C19/C20 (D1, D6, D7, D11)",
-    "auxiliary sources (zip partners, coefficient streams, modulo_counter arguments) are lock-step: their pull counter must "
-    "equal the pull counter of the stage's main input (pair-source model, theorem lockstep_two_sources); resample with a "
-    "time-varying step stream is not covered",
+    "auxiliary sources are long enough for the K demanded outputs (finite: needed+slack, trip: exactly the needed items); "
+    "their end-of-stream behaviour belongs to C06/C19 (D13); in `drain` mode they are endless and not compared",
+    "resample step streams: exact non-negative rational values (old/new cyclic patterns), at most one time-varying "
+    "resample per chain (its step list for the model is sized from the demand of the chain behind it, <= 1500 values)",
     "size>=1, hop>=1, hop<=size for overlap-add/STFT, resample order>=1 and old/new>0 (exact Fractions), Streamix delta>=0",
     "Stream.filter has no bound (the property gives none): its reads are compared with the position of the k-th passing item",
 ]
@@ -196,7 +224,8 @@ def reg(name, kin, kout, gen, build, model, head_only=False, aux=NOAUX):
     counting sources; rule = expected pull count after each next():
       lockstep  the pull counter of the stage's main input        (0 at construction and at iter())
       lag1      outputs delivered by the stage - 1                 (resample step stream)
-      event     outputs delivered - ceil(delta - 1/2), at least 0  (data of a Streamix event)"""
+      event     outputs delivered - ceil(delta - 1/2), at least 0  (data of a Streamix event)
+      never     0 while the main source lasts                      (a stream appended after it)"""
     REG[name] = dict(name=name, kin=kin, kout=kout, gen=gen, build=build, model=model, head_only=head_only, aux=aux)
 
 
@@ -274,6 +303,18 @@ def _install():
     reg("chain.star", "any", "same", g_items,
         lambda s, p, c: al.chain.from_iterable(iter([items(p, c), s])), PRE)
     reg("Stream(a,b)", "any", "same", g_items, lambda s, p, c: Stream(items(p, c), s), PRE)
+
+    # a STREAM appended after the main source: must not be touched while the main source lasts
+    def b_tail(s, p, c):
+        t = c.get("tail")
+        t = {"src": t, "stream": Stream(t), "gen": (v for v in t)}[p["other"]]
+        return {"append": lambda: Stream(s).append(t), "chain": lambda: al.chain(s, t),
+                "Stream": lambda: Stream(s, t), "star": lambda: al.chain.from_iterable(iter([s, t]))}[p["how"]]()
+    reg("append.stream", "any", "same",
+        lambda rng, cx: {"how": rng.choice(["append", "chain", "Stream", "star"]), "other": rng.choice(["src", "stream", "gen"])},
+        b_tail, SAMPLE, aux=lambda p: [A("tail", "never", ctl=False)])
+    reg("imap2", "any", "same", NOP, lambda s, p, c: al.imap(lambda a, b: a, s, c.get("partner")), SAMPLE,
+        aux=lambda p: [A("partner", ctl=False)])
 
     def b_copy(s, p, c):
         st = Stream(s)
